@@ -106,22 +106,12 @@ Definition recv_conn_neg (W : nat) (lease full neg est : bool) (s : rstate) (w :
 
 (* conn.go legacyReplayMarker / bufferHandshakeRecord / handleRecordContent (5206069): an UNPROTECTED record is
    checked against the epoch-0 replay window but its number is never committed - anybody can choose that
-   number.  Rec/Recv.v's dispatch still commits it (the code before that repair); this layer takes the
-   commit back: the windows of the state are restored and the OMark output dropped for epoch-0 records. *)
-Definition set_wins (ws : list (N * win)) (s : rstate) : rstate :=
-  {| r_epoch := r_epoch s; r_wins := ws; r_init := r_init s; r_queue := r_queue s; r_cid := r_cid s;
-     r_rrc := r_rrc s; r_closed := r_closed s |}.
-
-Definition is_mark (o : out) : bool := match o with OMark _ _ => true | _ => false end.
-
-Definition recv_top (W : nat) (lease full est : bool) (s : rstate) (w : wire) : rstate * list out :=
-  let '(s', os) := recv_conn W lease full est s w in
-  if w_epoch w =? 0 then (set_wins (r_wins s) s', filter (fun o => negb (is_mark o)) os) else (s', os).
-
+   number.  Rec/Recv.v models exactly that ([mark] is the identity at epoch 0, [omark] outputs nothing), so
+   the record step of the connection is [recv_conn] itself. *)
 Definition recv_rec (W : nat) (full est : bool) (s : rstate) (r : drec) : rstate * list out :=
   match r with
   | RBadHeader => (s, [])
-  | RWire w => recv_top W true full est s w
+  | RWire w => recv_conn W true full est s w
   end.
 
 (* readAndProcessDatagram: records in order, the first error ends the datagram *)
